@@ -3,6 +3,7 @@ package props
 import (
 	"go/token"
 	"golang.org/x/tools/go/ssa"
+	"strings"
 
 	"resverif/core"
 )
@@ -466,4 +467,73 @@ func impliedConds(e edgeCond, depth int) []string {
 		}
 	}
 	return append(out, core.SortedKeys(common)...)
+}
+
+// originOf follows v to the one value it stands for: up through the parameters
+// of private helpers (when all call sites pass the same value) and into the
+// single value a module function returns on all its returns. nil when there
+// is no single origin.
+func originOf(p *core.Prog, v ssa.Value) ssa.Value {
+	for i := 0; i < 8; i++ {
+		vs := paramArgs(p, v, 0)
+		if len(vs) == 0 {
+			return nil
+		}
+		first := vs[0]
+		for _, x := range vs[1:] {
+			if x != first {
+				return nil
+			}
+		}
+		v = first
+		call, ok := v.(*ssa.Call)
+		if !ok {
+			return v
+		}
+		cal := call.Common().StaticCallee()
+		if cal == nil || len(cal.Blocks) == 0 || cal.Signature.Results().Len() != 1 || !strings.HasPrefix(cal.Pkg.Pkg.Path(), core.ModPath) {
+			return v
+		}
+		var res ssa.Value
+		for _, ret := range core.Returns(cal) {
+			if cal.Recover != nil && ret.Block() == cal.Recover {
+				continue
+			}
+			if res != nil && ret.Results[0] != res {
+				return v
+			}
+			res = ret.Results[0]
+		}
+		if res == nil {
+			return v
+		}
+		v = res
+	}
+	return v
+}
+
+// ownerName names a function for obligation keys: a private helper that is only
+// ever reached from one outer function is named after that function, so that a
+// finding keyed by "the stop function writes the field" survives the extraction
+// of that write into a helper.
+func ownerName(p *core.Prog, fn *ssa.Function) string {
+	cur := fn
+	for i := 0; i < 6 && p.IsPrivateHelper(cur); i++ {
+		var owner *ssa.Function
+		for _, c := range p.CallersOf(cur) {
+			o := core.Outermost(c.Parent())
+			if o == cur {
+				continue
+			}
+			if owner != nil && owner != o {
+				return core.FuncName(fn)
+			}
+			owner = o
+		}
+		if owner == nil {
+			break
+		}
+		cur = owner
+	}
+	return core.FuncName(cur)
 }
